@@ -41,6 +41,16 @@ Definition wire_q (c : qcfg) : qobs :=
   mkQobs (if c_prepared c then K.opExecute else K.opQuery) (c_stmt c) vals (wire_page_size (c_psize c)) (c_cons c) flags
          (if 0 <? c_serial c then Some (c_serial c) else None) (c_ts c).
 
+(* result metadata is identified by a tag: the harness gives the metadata of the PREPARE result the
+   column name "txt" (tag [prep_meta]) and the metadata sent with answer number k of the script the
+   column name "t<k>" (tag k); the consumer reads the tag back from Iter.Columns() after each row *)
+Definition prep_meta : Z := -1.
+
+(* conn.go:1394 `params.skipMeta = !(cfg.DisableSkipMetadata || qry.disableSkipMetadata)` in the
+   prepared branch only; :1439-1448 *)
+Definition meta_mode_of (c : qcfg) : meta_mode Z :=
+  if c_prepared c && negb (c_noskip c) then UsePrepared prep_meta else UseServer.
+
 Inductive case :=
 | CIter (consumer : Z)                 (* 0 Iter.Scan, 1 Scanner, 2 Iter.MapScan, 3 Iter.SliceMap *)
         (cfg : qcfg)
@@ -48,8 +58,10 @@ Inductive case :=
         (pf : Z * Z)                   (* Query.Prefetch(num/den) *)
         (ncalls : nat)                 (* consumer calls made (consumers 0-2) *)
         (retries : nat)                (* > 0: Query.RetryPolicy(retry on the same host, at most this many times per page) *)
-        (script : list (reply Z))
-        (rows : list Z) (err : option Z) (reqs : list (request qobs)) (state : list Z).
+        (script : list (reply Z Z))
+        (rows : list Z)                (* row ids the consumer saw *)
+        (tags : option (list Z))       (* consumers 0 and 2: the metadata tag of Iter.Columns() after each row *)
+        (err : option Z) (reqs : list (request qobs)) (state : list Z).
 
 Definition zll_eqb (a b : list (list Z)) : bool :=
   (length a =? length b)%nat && forallb (fun p => zlist_eqb (fst p) (snd p)) (combine a b).
@@ -81,44 +93,35 @@ Fixpoint outs_eqb (a : list (option Z)) (b : list (option Z)) : bool :=
 Definition outs_of (rows : list Z) (ncalls : nat) : list (option Z) :=
   map Some rows ++ repeat None (ncalls - length rows).
 
-(* queryExecutor.do with a retry policy that answers Retry: a failed attempt is followed by another
-   execution of the same *Query (query_executor.go:170-180), i.e. for the paging logic the error
-   answer is "the same request again", exactly what UNPREPARED is (conn.go:1479-1482).  Each page's
-   query has its own attempt counter (conn.go:1454 gives newQry fresh metrics), UNPREPARED
-   re-executions happen inside one attempt.  The harness never lets a retried request go unanswered. *)
-Fixpoint retried (n left : nat) (s : list (reply Z)) : list (reply Z) :=
-  match s with
-  | [] => []
-  | RErr _ e :: t => match left with S l => RUnprep Z :: retried n l t | O => s end
-  | RUnprep _ :: t => RUnprep Z :: retried n left t
-  | RPage rows more st :: t => RPage rows more st :: retried n n t
-  | RVoid _ :: _ => s
-  end.
+Fixpoint somes {A} (l : list (option A)) : list A :=
+  match l with [] => [] | Some x :: t => x :: somes t | None :: t => somes t end.
 
 Definition check (c : case) : bool :=
   match c with
-  | CIter consumer cfg manual pf ncalls retries script0 rows err reqs state =>
-      let script := retried retries retries script0 in
+  | CIter consumer cfg manual pf ncalls retries script rows tags err reqs state =>
       let q := wire_q cfg in
+      let mm := meta_mode_of cfg in
       let auto := match manual with Some _ => false | None => true end in
       let ps0 := match manual with Some s => s | None => [] end in
       let posf := prefetch_pos (fst pf) (snd pf) in
-      let m0 := open q auto posf ps0 script in
-      let fin (outs : list (option Z)) (m ms : mach Z qobs) :=
+      let m0 := open q auto posf mm retries ps0 script in
+      let tags_ok (l : list (Z * Z)) := match tags with Some t => zlist_eqb (map snd l) t | None => true end in
+      let fin (outs : list (option (Z * Z))) (m ms : mach Z Z qobs) :=
         (* the harness waits for a spawned prefetch to land before it reads the node's log;
            [ms] is the machine whose Iter the harness calls PageState() on *)
-        let m' := async q auto posf m in
-        outs_eqb outs (outs_of rows ncalls) && opt_eqb Z.eqb (close m') err
+        let m' := async q auto posf mm retries m in
+        outs_eqb (map (option_map fst) outs) (outs_of rows ncalls) && tags_ok (somes outs)
+        && opt_eqb Z.eqb (close m') err
         && reqs_eqb (m_reqs m') reqs && zlist_eqb (page_state ms) state in
-      if consumer =? 0 then let '(outs, m) := calls (scan q auto posf) ncalls m0 in fin outs m m
+      if consumer =? 0 then let '(outs, m) := calls (scan q auto posf mm retries) ncalls m0 in fin outs m m
       (* a Scanner advances its own pointer (is.iter), the Iter it was made from stays on page one *)
-      else if consumer =? 1 then let '(outs, m) := calls (next q auto posf) ncalls m0 in fin outs m m0
-      else if consumer =? 2 then let '(outs, m) := calls (map_scan q auto posf) ncalls m0 in fin outs m m
+      else if consumer =? 1 then let '(outs, m) := calls (next q auto posf mm retries) ncalls m0 in fin outs m m0
+      else if consumer =? 2 then let '(outs, m) := calls (map_scan q auto posf mm retries) ncalls m0 in fin outs m m
       else if consumer =? 3 then
-        match slice_map q auto posf m0 with
+        match slice_map q auto posf mm retries m0 with
         | Some (l, e, m) =>
-            zlist_eqb l rows && opt_eqb Z.eqb e err
-            && reqs_eqb (m_reqs (async q auto posf m)) reqs && zlist_eqb (page_state m) state
+            zlist_eqb (map fst l) rows && opt_eqb Z.eqb e err
+            && reqs_eqb (m_reqs (async q auto posf mm retries m)) reqs && zlist_eqb (page_state m) state
         | None => false
         end
       else false
